@@ -82,6 +82,31 @@ pub struct Scenario {
     pub colls: Vec<CollSpec>,
     pub prefix: Option<String>,
     pub common: Option<BTreeMap<String, String>>,
+    /// collectors registered together as ONE composite collector (everything else is registered on its own)
+    pub bundles: Vec<Bundle>,
+}
+
+/// A composite collector, the way an application bundles the metrics of one subsystem: `desc()` lists the descriptors of
+/// the members in member order, `collect()` returns their families in another (generated) order - the trait promises no
+/// correspondence between the two.
+#[derive(Clone, Debug)]
+pub struct Bundle {
+    pub members: Vec<usize>,
+    pub collect_order: Vec<usize>,
+}
+
+struct BundleColl {
+    parts: Vec<Box<dyn Collector>>,
+    order: Vec<usize>,
+}
+
+impl Collector for BundleColl {
+    fn desc(&self) -> Vec<&prometheus::core::Desc> {
+        self.parts.iter().flat_map(|p| p.desc()).collect()
+    }
+    fn collect(&self) -> Vec<prometheus::proto::MetricFamily> {
+        self.order.iter().flat_map(|&i| self.parts[i].collect()).collect()
+    }
 }
 
 // (the last two names have the same 64-bit FNV-1a hash, see pools::FNV64_COLLISION)
@@ -245,7 +270,31 @@ pub fn gen_scenario(src: &mut Src, allow_mixed: bool) -> Scenario {
         let cn = distinct(src, COMMON, ncommon);
         Some(cn.into_iter().map(|n| (n.to_string(), src.text(VALUE_FRAGS, 2))).collect())
     };
-    Scenario { colls, prefix, common }
+    let mut bundles = vec![];
+    if colls.len() >= 2 && src.chance(44) {
+        let mut free: Vec<usize> = (0..colls.len()).collect();
+        for _ in 0..1 + src.below(2) {
+            if free.len() < 2 {
+                break;
+            }
+            let mut members = vec![];
+            let mut rest = vec![];
+            for &i in &free {
+                if members.len() < 2 || src.chance(128) {
+                    members.push(i);
+                } else {
+                    rest.push(i);
+                }
+            }
+            free = rest;
+            // member order is generated too (it is the descriptor order)
+            let p = src.perm(members.len());
+            let members: Vec<usize> = p.iter().map(|&k| members[k]).collect();
+            let collect_order = src.perm(members.len());
+            bundles.push(Bundle { members, collect_order });
+        }
+    }
+    Scenario { colls, prefix, common, bundles }
 }
 
 fn opts_of(c: &CollSpec) -> Opts {
@@ -337,8 +386,20 @@ pub fn build_collector(c: &CollSpec) -> Box<dyn Collector> {
 pub fn build(s: &Scenario, order: &[usize]) -> Result<Registry, String> {
     let common: Option<HashMap<String, String>> = s.common.as_ref().map(|m| m.iter().map(|(k, v)| (k.clone(), v.clone())).collect());
     let reg = Registry::new_custom(s.prefix.clone(), common).map_err(|e| format!("new_custom: {}", e))?;
+    let mut done = vec![false; s.bundles.len()];
     for &i in order {
-        reg.register(build_collector(&s.colls[i])).map_err(|e| format!("register #{}: {}", i, e))?;
+        match s.bundles.iter().position(|b| b.members.contains(&i)) {
+            None => reg.register(build_collector(&s.colls[i])).map_err(|e| format!("register #{}: {}", i, e))?,
+            // a bundle is registered when the first of its members comes up
+            Some(b) if !done[b] => {
+                done[b] = true;
+                let bundle = &s.bundles[b];
+                let parts = bundle.members.iter().map(|&m| build_collector(&s.colls[m])).collect();
+                reg.register(Box::new(BundleColl { parts, order: bundle.collect_order.clone() }))
+                    .map_err(|e| format!("register bundle {:?}: {}", bundle, e))?
+            }
+            Some(_) => {}
+        }
     }
     Ok(reg)
 }
@@ -396,5 +457,5 @@ pub fn describe(s: &Scenario) -> String {
         .iter()
         .map(|c| format!("{:?} {}{{{:?}}} vars={:?} children={:?}", c.kind, c.name, c.consts, c.vars, c.children))
         .collect();
-    format!("prefix={:?} common={:?} :: {}", s.prefix, s.common, cs.join(" | "))
+    format!("prefix={:?} common={:?} bundles={:?} :: {}", s.prefix, s.common, s.bundles, cs.join(" | "))
 }
